@@ -1,7 +1,8 @@
 (* C19 — a token secret never leaves the cluster unsalted: property theorems only.  Each is closed by
    `exact` of a lemma from proofs/C19_*.v.  Model: model/C19_model.v (salt_token = auth.SaltToken as
    it is after the F6a fix, provide_one/provider = federation.saltedTokenProvider, remote_client =
-   keepstore remoteProxy.remoteClient, legacy = controller Handler.saltAuthToken).
+   keepstore remoteProxy.remoteClient, legacy = controller Handler.saltAuthToken, remote_request =
+   Handler.remoteClusterRequest + proxy.Do, crc = federation.Conn.ContainerRequestCreate).
    v2_fields token uuid secret: the first three '/'-separated fields of token are "v2", uuid, secret;
    is_salted_secret s: s is exactly 40 lowercase hex digits; is_obsolete t: 41+ characters [0-9a-z].
    Nothing is assumed about HMAC-SHA1. *)
@@ -215,11 +216,123 @@ Print Assumptions C19_check_case_eq.
 
 Theorem C19_known_bits_narrow : forall c,
   known_F6b_bits c <> 0%N ->
-  exists r remote secrets o_auth o_query in_body in_cookie,
-    c = CLegacy r remote secrets false o_auth o_query false false in_body in_cookie false /\
-    (in_body = true \/ in_cookie = true) /\
-    (in_body = true -> form_carries r secrets = true) /\
-    (in_cookie = true -> cookie_carries r secrets = true) /\
-    known_F6b_bits c = ((if in_body then 4 else 0) + (if in_cookie then 8 else 0))%N.
+  exists r secrets wire,
+    ((exists remote dbt o_auth o_query, c = CLegacy r remote dbt secrets false o_auth o_query wire) \/
+     (exists dbt sent, c = CStack r dbt secrets sent /\ wire = all_parts sent)) /\
+    found LAuth secrets wire = false /\ found LQuery secrets wire = false /\ found LOther secrets wire = false /\
+    (found LBody secrets wire = true \/ found LCookie secrets wire = true) /\
+    (found LBody secrets wire = true -> form_carries r secrets = true) /\
+    (found LCookie secrets wire = true -> cookie_carries r secrets = true) /\
+    known_F6b_bits c = ((if found LBody secrets wire then 4 else 0) + (if found LCookie secrets wire then 8 else 0))%N.
 Proof. exact known_bits_narrow. Qed.
 Print Assumptions C19_known_bits_narrow.
+
+(* What leaves, at the wire.  Handler.remoteClusterRequest puts on the wire exactly the request
+   saltAuthToken returned -- header, body and in particular the query string, from which api_token has been
+   removed -- so the statements about saltAuthToken hold of what the remote cluster receives *)
+Theorem C19_wire_is_salted_request : forall db r remote, remote_request db r remote = legacy db r remote.
+Proof. exact remote_request_is_salted_request. Qed.
+Print Assumptions C19_wire_is_salted_request.
+
+Theorem C19_wire_leak_confined_to_form_and_cookie : forall db r remote w t0 rest,
+  remote_request db r remote = LFwd w -> load_tokens r = t0 :: rest ->
+  (exists out, l_auth w = ABearer out /\
+     (salt_token t0 remote = Salted out \/
+      ((salt_token t0 remote = ErrObsolete \/ salt_token t0 remote = ErrFormat) /\
+       (out = t0 \/ exists user auth_uuid secret, db t0 = DbFound user auth_uuid secret /\
+                                                 salt_token ("v2/" ++ auth_uuid ++ "/" ++ secret) remote = Salted out)))) /\
+  values "api_token" (l_query w) = [] /\ l_form w = l_form r /\ l_cookie w = l_cookie r.
+Proof. exact wire_leak_confined. Qed.
+Print Assumptions C19_wire_leak_confined_to_form_and_cookie.
+
+Theorem C19_wire_carries_only_salted_partial : forall db r remote w t0 rest uuid secret,
+  values "api_token" (l_form r) = [] -> l_cookie r = None ->
+  remote_request db r remote = LFwd w -> load_tokens r = t0 :: rest ->
+  v2_fields t0 uuid secret -> is_salted_secret secret = false ->
+  carried w = ["v2/" ++ uuid ++ "/" ++ hmac_sha1_hex secret remote].
+Proof. exact wire_carries_only_salted_partial. Qed.
+Print Assumptions C19_wire_carries_only_salted_partial.
+
+(* federation.Conn.ContainerRequestCreate: secrets embedded in the forwarded object.  Without an explicit
+   runtime_token, a current token issued by this cluster (uuid with the local cluster's prefix) is never
+   what goes into the forwarded request -- a fresh token is created for the user -- whatever the user's own
+   origin; the current token is forwarded only when it was issued by another cluster *)
+Theorem C19_crc_local_token_minted : forall local uuid api scopes user,
+  has_prefix local uuid = true -> scope_all scopes = true ->
+  crc_runtime_token local None (Some (uuid, api, scopes)) (Some user) = CrtMint user.
+Proof. exact crc_local_token_minted. Qed.
+Print Assumptions C19_crc_local_token_minted.
+
+Theorem C19_crc_current_token_only_if_foreign : forall local aca user t,
+  crc_runtime_token local None aca user = CrtCurrent t ->
+  exists uuid api scopes, aca = Some (uuid, api, scopes) /\ has_prefix local uuid = false /\
+                          scope_all scopes = true /\ t = "v2/" ++ uuid ++ "/" ++ api.
+Proof. exact crc_current_token_only_if_foreign. Qed.
+Print Assumptions C19_crc_current_token_only_if_foreign.
+
+(* the whole call, for every provider lookup and every outcome of creating a token: the runtime_token of the
+   request sent to the remote is the caller's explicit one, a freshly created one, or the v2 form of a
+   current token issued elsewhere; its Authorization header is the provider's first token for that cluster *)
+Theorem C19_crc_sent_runtime_token : forall lookup mint local remotes target creds rt aca user a t,
+  crc lookup mint local remotes target creds rt aca user = CrcSent a t ->
+  is_remote local remotes target = true /\
+  (rt = Some t \/
+   (rt = None /\ exists uuid api scopes, aca = Some (uuid, api, scopes) /\ scope_all scopes = true /\
+      ((has_prefix local uuid = true /\ exists u, user = Some u /\ mint u = Some t) \/
+       (has_prefix local uuid = false /\ t = "v2/" ++ uuid ++ "/" ++ api)))).
+Proof. exact crc_sent_runtime_token. Qed.
+Print Assumptions C19_crc_sent_runtime_token.
+
+Theorem C19_crc_sent_authorization : forall lookup mint local remotes target creds rt aca user a t,
+  crc lookup mint local remotes target creds rt aca user = CrcSent a t ->
+  exists dest, cluster_of target = Some dest /\
+    match provider lookup dest (Some creds) with
+    | Some (x :: _) => a = "Bearer " ++ x
+    | Some [] => a = "Bearer -"
+    | None => False
+    end.
+Proof. exact crc_sent_authorization. Qed.
+Print Assumptions C19_crc_sent_authorization.
+
+(* The evaluator's search of what leaves.  Occurs sub s: s = a ++ sub ++ b for some a, b.  clean_b secrets
+   wire: no listed secret occurs in any part (any place, any reading) of the outgoing requests; the five
+   places of spec_wire_b are all there is *)
+Theorem C19_contains_is_occurs : forall sub s, contains sub s = true <-> Occurs sub s.
+Proof. exact contains_occurs. Qed.
+Print Assumptions C19_contains_is_occurs.
+
+Theorem C19_clean_reflects : forall secrets wire,
+  clean_b secrets wire = true <-> forall s p, In s secrets -> In p wire -> ~ Occurs s (snd p).
+Proof. exact clean_b_reflects. Qed.
+Print Assumptions C19_clean_reflects.
+
+Theorem C19_spec_wire_reflects : forall o_err secrets wire,
+  spec_wire_b o_err secrets wire = true <->
+  (o_err = true \/ forall s p, In s secrets -> In p wire -> ~ Occurs s (snd p)).
+Proof. exact spec_wire_reflects. Qed.
+Print Assumptions C19_spec_wire_reflects.
+
+(* ContainerRequestCreate: the secrets judged are those of this cluster that the caller holds *)
+Theorem C19_crc_secrets_are_local : forall local creds aca s,
+  In s (crc_secrets local creds aca) <->
+  ((exists t uuid, In t creds /\ v2_fields t uuid s /\ is_salted_secret s = false /\
+                   has_prefix local uuid = true /\ 40 < String.length s) \/
+   (exists uuid scopes, aca = Some (uuid, s, scopes) /\ has_prefix local uuid = true /\ 40 < String.length s)).
+Proof. exact crc_secrets_spec. Qed.
+Print Assumptions C19_crc_secrets_are_local.
+
+Theorem C19_spec_crc_reflects : forall local creds rt aca o_sent o_rt wire,
+  spec_crc_b local creds rt aca o_sent o_rt wire = true <->
+  ((forall s p, In s (crc_secrets local creds aca) -> In p wire -> ~ Occurs s (snd p)) /\
+   (o_sent = true -> rt = None -> forall uuid api scopes, aca = Some (uuid, api, scopes) ->
+      has_prefix local uuid = true -> o_rt <> Some ("v2/" ++ uuid ++ "/" ++ api))).
+Proof. exact spec_crc_reflects. Qed.
+Print Assumptions C19_spec_crc_reflects.
+
+(* the model meets the runtime_token clause, provided a freshly created token is not the current one *)
+Theorem C19_model_meets_spec_crc : forall lookup mint local remotes target creds aca user a t,
+  (forall u t', mint u = Some t' -> forall uuid api scopes, aca = Some (uuid, api, scopes) -> t' <> "v2/" ++ uuid ++ "/" ++ api) ->
+  crc lookup mint local remotes target creds None aca user = CrcSent a t ->
+  current_token_forwarded local None aca (Some t) = false.
+Proof. exact model_meets_spec_crc. Qed.
+Print Assumptions C19_model_meets_spec_crc.
